@@ -57,6 +57,7 @@ class TwoParty:
         self.drops_done = 0
         self.drops_skipped = 0
         self.drop_kinds = {}
+        self.bad_first_outcome = None
 
     def code_for_b(self):
         if "code_b" in self.cfg:
@@ -74,6 +75,15 @@ class TwoParty:
                 if not self.b_started:
                     def give():
                         self.b_started = True
+                        if self.cfg.get("bad_first_b"):
+                            self.b.sent_before_code = list(self.b.sent)
+                            # the application's first attempt is malformed (a pasted code with a blank in it); it catches
+                            # the KeyFormatError and asks again
+                            try:
+                                self.b.w.set_code(self.cfg["bad_first_b"])
+                                self.bad_first_outcome = "accepted"
+                            except Exception as e:
+                                self.bad_first_outcome = type(e).__name__
                         self.b.call("set_code", code)
                     acts.append((("app", "B.set_code"), give))
             else:
